@@ -13,7 +13,7 @@
    The socket is an oracle: Flush carries "does conn.Write succeed", Close
    carries "does conn.Close succeed".  L is thriftudp.MaxLength. *)
 From Coq Require Import ZArith List Bool.
-From Tally Require Import Base.Obs.
+From Tally Require Import Base.ObsCore.
 Import ListNotations.
 Open Scope Z_scope.
 
